@@ -16,7 +16,11 @@ from concurrent.futures import ThreadPoolExecutor
 
 VERIF = os.path.dirname(os.path.dirname(os.path.abspath(__file__)))
 CACHE = os.environ.get("VERIF_CACHE", os.path.join(VERIF, ".cache"))
-KANI_FLAGS = ["-Z", "stubbing", "-Z", "unstable-options", "--no-memory-safety-checks"]
+# --no-assertion-reach-checks: Kani's default instrumentation adds one always-"failing" reachability
+# marker per assertion; under --json-ui CBMC embeds a full trace for every failed property, which
+# made each output ~3 GB and each run ~2.5x slower.  Non-vacuity is established by the explicit
+# kani::cover!(true) twin at the end of every harness instead.
+KANI_FLAGS = ["-Z", "stubbing", "-Z", "unstable-options", "--no-memory-safety-checks", "--no-assertion-reach-checks"] + os.environ.get("VERIF_KANI_EXTRA", "").split()
 CBMC_FLAGS = [
     "--no-malloc-may-fail", "--no-undefined-shift-check", "--no-signed-overflow-check",
     "--no-bounds-check", "--no-pointer-check", "--nan-check", "--no-self-loops-to-assumptions",
@@ -130,7 +134,7 @@ def prepare(h):
     """goto-cc/goto-instrument steps; idempotent per harness file."""
     g = h["goto"]
     link = [g]
-    if h.get("variant") in ("s", "st") or h.get("memloop") or os.environ.get("VERIF_MEMLOOP"):
+    if h.get("variant") == "s" or h.get("memloop") or os.environ.get("VERIF_MEMLOOP"):
         # byte-loop memcpy/memmove (models/cprover/mem.c) instead of CBMC's array-theory versions;
         # compiled once per overlay by codegen()
         link.append(os.path.join(os.path.dirname(g), "cprover_mem.o"))
@@ -160,6 +164,47 @@ def select_unwindset(loops, rules):
                 sel.append("%s:%d" % (l, n))
                 break
     return sel
+
+
+_DROP = ('"messageText": "Unwinding loop', '"messageText": "Not unwinding loop', '"messageText": "aborting path on assume(false)',
+         '"messageText": "Unwinding recursion', '"messageText": "Not unwinding recursion')
+
+
+def slim_cbmc_json(path):
+    """CBMC's --json-ui --verbosity 8 output carries one object per loop iteration / aborted path
+    (hundreds of MB for the page-wide loops); parsing that in Python costs gigabytes per harness.
+    Stream the file and drop those progress messages; everything else (results, statistics) stays."""
+    if os.environ.get("VERIF_KEEP_LOG"):
+        return
+    tmp = path + ".slim"
+    try:
+        with open(path, "r", errors="replace") as fin, open(tmp, "w") as fout:
+            buf, depth, inobj = [], 0, False
+            for line in fin:
+                st = line.strip()
+                if not inobj:
+                    if st == "{" and depth == 1:
+                        inobj, buf, objdepth = True, [line], 1
+                        continue
+                    if st.startswith("["):
+                        depth += 1
+                    elif st.startswith("]"):
+                        depth -= 1
+                    fout.write(line)
+                    continue
+                buf.append(line)
+                objdepth += st.count("{") - st.count("}") if not st.startswith('"messageText"') else 0
+                if objdepth <= 0:
+                    inobj = False
+                    head = "".join(buf[:3])
+                    if not any(d in head for d in _DROP):
+                        fout.writelines(buf)
+        os.replace(tmp, path)
+    except Exception:
+        try:
+            os.remove(tmp)
+        except OSError:
+            pass
 
 
 def parse_cbmc_json(text):
@@ -254,6 +299,7 @@ def run_harness(h, cfg, workdir, trace=False):
     if timed_out:
         out.update(verdict="inconclusive", detail="timeout after %ss" % cfg.get("timeout", 300))
         return out
+    slim_cbmc_json(outp)
     text = open(outp).read()
     parsed = parse_cbmc_json(text)
     if parsed[0] is None:
